@@ -171,11 +171,21 @@ fn finish(ctx: &mut Ctx) -> Result<i32, MachineryError> {
     let (commit, dirty) = subject::repo_commit();
     let mut lines = vec![];
     let viols = ctx.violations.clone();
+    let mut unconfirmed: Vec<String> = vec![];
     // confirmations run with a fresh hang budget
     subject::HANGS.store(0, std::sync::atomic::Ordering::SeqCst);
     for v in &viols {
         subject::HANGS.store(0, std::sync::atomic::Ordering::SeqCst);
-        let cli = confirm(ctx, v)?;
+        // a violation whose replay does not reproduce identically is set aside; it is a machinery
+        // failure only if no violation of this run could be confirmed
+        let cli = match confirm(ctx, v) {
+            Ok(c) => c,
+            Err(e) => {
+                ctx.violation_count = ctx.violation_count.saturating_sub(1);
+                unconfirmed.push(e.0);
+                continue;
+            }
+        };
         if cli == json!("transient-hang") {
             ctx.violation_count = ctx.violation_count.saturating_sub(1);
             ctx.extra.insert("transient_hangs_dropped".into(), json!(true));
@@ -204,6 +214,13 @@ fn finish(ctx: &mut Ctx) -> Result<i32, MachineryError> {
             ctx.id, v.clause, v.detail, v.case.src, v.subject_class, v.subject_stdout, v.subject_msg, v.ref_summary
         );
         }
+    }
+    if !unconfirmed.is_empty() {
+        if lines.is_empty() {
+            return Err(MachineryError(unconfirmed[0].clone()));
+        }
+        ctx.extra.insert("violations_set_aside_because_their_replay_varied".into(), json!(unconfirmed.len()));
+        eprintln!("[{}] {} recorded violation(s) set aside: the replay did not reproduce identically ({})", ctx.id, unconfirmed.len(), unconfirmed[0].chars().take(200).collect::<String>());
     }
     for (what, n) in &ctx.known_hits {
         println!("KNOWN-FINDING: property={} {} ({} cases)", ctx.id, what, n);
